@@ -353,6 +353,9 @@ var targetedC20 = []struct {
 	{"hash-wide", false, []string{"(def hw (hash))", "(for [(def i 0) (< i 20) (def i (+ i 1))] (hset hw (str2sym (concat \"k\" (str i))) i))", "(str hw)", "(keys hw)", "(json hw)", "(str (unjson (json hw)))"}},
 	{"macro-names", false, []string{"(defmac sw [a b] ^(let [tmp ~a] (set ~a ~b) (set ~b tmp)))", "(def x 1) (def y 2)", "(sw x y)", "(str (list x y))", "(str (macexpand (sw x y)))"}},
 	{"gensym-visible", false, []string{"(str (gensym))", "(str (gensym \"pfx\"))", "(defmac gm [] (let [g (gensym)] ^(quote ~g)))", "(str (gm))"}},
+	{"near-miss-field", false, []string{"(struct Lim [(field limit1: int64 e:0) (field limit2: int64 e:1) (field limit3: int64 e:2) (field limit4: int64 e:3) (field limit5: int64 e:4) (field limit6: int64 e:5) (field limit7: int64 e:6) (field limit8: int64 e:7) (field limit9: int64 e:8)])", "(def lm (Lim limit1: 1))", "(hset lm limit: 5)", "(Lim limit: 1)", "{lm.limit = 3}", "(hget lm limit:)"}},
+	{"near-miss-names", false, []string{"(defn fooa1 [] 1) (defn fooa2 [] 2) (defn fooa3 [] 3) (defn fooa4 [] 4) (defn fooa5 [] 5) (defn fooa6 [] 6) (defn fooa7 [] 7) (defn fooa8 [] 8) (defn fooa9 [] 9)", "(fooa)", "fooa", "(func typd [aa1:int64 aa2:int64 aa3:int64 aa4:int64 aa5:int64 aa6:int64 aa7:int64 aa8:int64 aa9:int64] [n:int64] (return 1))", "(typd aa:1)", "(def hz (hash k1:1 k2:2 k3:3 k4:4 k5:5 k6:6 k7:7 k8:8 k9:9))", "(hget hz k:)", "(:k hz)"}},
+	{"literal-mutation", false, []string{`(def sad "sad")`, "(def p (& sad))", `(derefSet p "glad")`, `(str "sad")`, `(str sad)`, "(def one 1)", "(def p1 (& one))", "(derefSet p1 2)", "(+ 1 0)", `(concat "sad" "!")`}},
 	{"str-scopes", false, []string{"(def a 1) (def b 2) (def c 3)", "(let [x 1 y 2 z 3] (str (hash p:x q:y r:z)))"}},
 	{"package-print", false, []string{"(def p (package \"pp\" { A := 1; B := 2; C := 3; D := 4 }))", "(str p)", "p.A"}},
 	{"typelist", false, []string{"(len (typelist))", "(str (typelist))"}},
